@@ -21,9 +21,10 @@ func init() {
 		Explanation: "Decided (necessary conditions, for every schedule): (R10.1) every access to the registry state (Store.moduleList/nameToModule/nameToModuleCap/typeIDs, ModuleInstance.prev/next), to the engines' compiled-module maps and to a table's keep-alive list happens with the guarding mutex held in a sufficient mode (must-lockset dataflow on SSA, helpers checked at all call sites); " +
 			"(R10.2) the two closed words are atomic values only ever read with Load or changed with CompareAndSwap; (R10.3) every call that releases an instance's resources is control-dependent on a successful CAS of its closed word (close-once, notification-once); " +
 			"(R10.4) every call that reaches Engine.CompileModule or Store.Instantiate from the public API is dominated by a passed runtime-closed check; (R10.5) the registry insert is dominated by the closed-store sentinel test and the name-taken test, delete unlinks and clears both list pointers, closing the store nils list and map. " +
-			"NOT decided: linearizability of histories as such (ordering of effects across the several critical sections).",
+			"(R10.6) the head of the module list is replaced by m.next only under the test that m is the head, so closing an instance that was never linked (failed registration) leaves the list intact. NOT decided: linearizability of histories as such (ordering of effects across the several critical sections).",
 		Assumptions: []string{"table of guarded fields → guarding mutex is frozen in checker/props/c10.go from the declarations' comments and confirmed by reading all 60+ access sites"},
 		Rules: []core.Rule{
+			{ID: "R10.6", Template: "T-CONSULT", Text: "the module-list head is moved only for the instance that is the head", Min: 1},
 			{ID: "R10.1", Template: "T-LOCKSET", Text: "every read of a guarded field holds its mutex (read or write mode), every write holds it in write mode; constructors writing a freshly allocated object are exempt", Min: 40},
 			{ID: "R10.2", Template: "T-WHOCALLS", Text: "closed words have an atomic type and are only accessed through Load and CompareAndSwap", Min: 2},
 			{ID: "R10.3", Template: "T-MUSTPASS", Text: "every call of the resource-release function is dominated by the success branch of a CAS on the instance's closed word (directly or through a wrapper that returns the CAS result)", Min: 3},
@@ -32,6 +33,7 @@ func init() {
 		},
 		Run: runC10,
 		Controls: []core.Control{
+			{Name: "head-moved-for-unlinked-instance", File: "internal/wasm/store_module_list.go", Old: "\tif m.prev != nil {\n\t\tm.prev.next = m.next\n\t}\n\tif m.next != nil {\n\t\tm.next.prev = m.prev\n\t}\n\tif s.moduleList == m {\n\t\ts.moduleList = m.next\n\t}\n", New: "\tif m.prev != nil {\n\t\tm.prev.next = m.next\n\t} else {\n\t\ts.moduleList = m.next\n\t}\n\tif m.next != nil {\n\t\tm.next.prev = m.prev\n\t}\n", Rule: "R10.6", Substr: "list head"},
 			{Name: "interp-close-unlocked", File: "internal/engine/interpreter/interpreter.go", Old: "func (e *engine) Close() (err error) {\n\te.mux.Lock()\n\tdefer e.mux.Unlock()\n", New: "func (e *engine) Close() (err error) {\n", Rule: "R10.1", Substr: "compiledFunctions"},
 			{Name: "register-reads-before-lock", File: "internal/wasm/store_module_list.go", Old: "func (s *Store) registerModule(m *ModuleInstance) error {\n\ts.mux.Lock()\n\tdefer s.mux.Unlock()\n\n\tif s.nameToModule == nil {\n\t\treturn errors.New(\"already closed\")\n\t}\n", New: "func (s *Store) registerModule(m *ModuleInstance) error {\n\tif s.nameToModule == nil {\n\t\treturn errors.New(\"already closed\")\n\t}\n\ts.mux.Lock()\n\tdefer s.mux.Unlock()\n", Rule: "R10.1", Substr: "nameToModule"},
 			{Name: "module-lookup-writes-under-rlock", File: "internal/wasm/store_module_list.go", Old: "\tm, ok := s.nameToModule[moduleName]\n\tif !ok {", New: "\tm, ok := s.nameToModule[moduleName]\n\tif ok && m.Closed.Load() != 0 {\n\t\tdelete(s.nameToModule, moduleName)\n\t\tok = false\n\t}\n\tif !ok {", Rule: "R10.1", Substr: "nameToModule"},
@@ -295,6 +297,9 @@ func runC10(c *core.Ctx) {
 
 	// ---------- R10.5 registry bookkeeping
 	checkRegistry(c)
+
+	// ---------- R10.6 head update
+	checkHeadUpdate(c)
 }
 
 func derefStructT(t types.Type) types.Type {
@@ -808,4 +813,67 @@ func sameValue(a, b ssa.Value) bool {
 		}
 	}
 	return false
+}
+
+// ---- R10.6 the list head is moved only for the instance that is the head ----
+
+func checkHeadUpdate(c *core.Ctx) {
+	list := structField(c, "internal/wasm", "Store", "moduleList")
+	next := structField(c, "internal/wasm", "ModuleInstance", "next")
+	if list == nil || next == nil {
+		c.Undecided("R10.6", "anchor", 0, "Store.moduleList / ModuleInstance.next not found")
+		return
+	}
+	n := 0
+	for _, fn := range moduleFns(c, "internal/wasm") {
+		for _, b := range fn.Blocks {
+			for _, in := range b.Instrs {
+				st, ok := in.(*ssa.Store)
+				if !ok {
+					continue
+				}
+				fa, ok := st.Addr.(*ssa.FieldAddr)
+				if !ok || fieldOfAddr(fa) != list {
+					continue
+				}
+				// only removals: the stored value is `x.next` of some instance x
+				u, ok := st.Val.(*ssa.UnOp)
+				if !ok {
+					continue
+				}
+				fa2, ok := u.X.(*ssa.FieldAddr)
+				if !ok || fieldOfAddr(fa2) != next {
+					continue
+				}
+				removed := fa2.X
+				n++
+				guarded := guardedBy(b, func(cond ssa.Value) int {
+					bo, ok := cond.(*ssa.BinOp)
+					if !ok || (bo.Op != token.EQL && bo.Op != token.NEQ) {
+						return 0
+					}
+					isHeadLoad := func(v ssa.Value) bool {
+						l, ok := v.(*ssa.UnOp)
+						if !ok {
+							return false
+						}
+						f, ok := l.X.(*ssa.FieldAddr)
+						return ok && fieldOfAddr(f) == list
+					}
+					if (isHeadLoad(bo.X) && bo.Y == removed) || (isHeadLoad(bo.Y) && bo.X == removed) {
+						if bo.Op == token.EQL {
+							return 1
+						}
+						return -1
+					}
+					return 0
+				})
+				c.Check(guarded, "R10.6", "list head moved only for the head in "+core.SSAFuncName(fn), st.Pos(), "`moduleList = m.next` is guarded by `moduleList == m`",
+					"the list head is replaced by m.next without testing that m is the head: for an instance that was never linked (registration failed: prev and next are nil) the head becomes nil and every open instance is dropped from the list – Runtime.Close no longer closes them")
+			}
+		}
+	}
+	if n == 0 {
+		c.Undecided("R10.6", "removal from the module list", 0, "no `moduleList = x.next` store found")
+	}
 }
